@@ -22,6 +22,9 @@ def run(ctx):
   for prof, (nq, nt) in PLAN.items():
     n = nq if ctx.quick else nt
     jobs += [[prof, s, nb] for s in range(base, base + n)]
+  # the deterministic scenario scripts (harness/witness/scenario-*.json) run in every process too
+  windex = json.load(open(os.path.join(os.path.dirname(corpus.__file__), "witness", "index.json")))
+  jobs += [["script:" + w, 0, 0] for w in sorted(windex) if w.startswith("scenario-")]
   nsh = 4 if ctx.quick else 8
   shards = {}
   for hs in hashseeds:
@@ -86,7 +89,7 @@ def run(ctx):
 
 def replay(ctx, data):
   prof, seed = data["tid"].rsplit("-", 1)
-  jobs = [[prof, int(seed), data["n_bundles"]]]
+  jobs = [[prof, int(seed), 0 if prof.startswith("script:") else data["n_bundles"]]]
   files = {}
   for hs in (0, 1, 2):
     wd = os.path.join(ctx.workdir, "hs%d" % hs)
